@@ -12,6 +12,8 @@ CONSTANTS
   PenaltySet = {1}
   KSet = {1}
   PreSet = {0}
+  PostSet = {0}
+  TransOn = FALSE
   MaxH = 4
 SPECIFICATION SpecBounded
 INVARIANTS Drained
